@@ -21,7 +21,10 @@ RULE = (
     "patches, base+patch+uncommitted patch} x class{IH5Record,IH5MFRecord} x argument{name,list}, each in a directory "
     "shared with prefix-related records fo/foo2/foo-bar/foo-/foobar (each base+patch): outcome table from the "
     "h5py.File mode contract, file-set and byte-digest deltas, refused writes in 'r', view after open and after "
-    "write+close+reopen, neighbours byte-identical and opening to their own content, find_files/list_records exact. "
+    "write+close+reopen, neighbours byte-identical and opening to their own content, find_files/list_records exact; "
+    "in 'r' every record object reachable from the record (.file, node.file, parent chains) refuses to write; a refused "
+    "open (mixed file list) precedes each r/r+/a open; (c) record names outside the alphabet are refused, 'w' over "
+    "orphan patch containers gives a usable record. "
     "Non-trivial = matrix cell with >=1 patch, or a reopen under a non-identity permutation; distinct by cell / "
     "(history shape, permutation)"
 )
